@@ -1125,9 +1125,57 @@ def c12_body(ctx, post):
     arg_forms_family(ctx, "output modes disagree")
     # descriptions: only for files to which a described change applied
     c12_descriptions(ctx)
+    c12_no_write_syscalls(ctx)
     # F17: a patched file with CRLF line endings
     sc = Scenario("f17", ["@@\n@@\n-zzz(1)\n+yyy(1)\n"], {"crlf.go": "package odd\r\n\r\nfunc crlf() {\r\n\tzzz(1)\r\n}\r\n"}, "crlf-matched")
     run_scenarios(ctx, [sc], [["diff"], ["print"], []], {"write", "stdout", "desc", "diffapply"}, None)
+
+WRITE_SYSCALLS = "openat,open,creat,rename,renameat,renameat2,unlink,unlinkat,mkdir,mkdirat,rmdir,chmod,fchmod,fchmodat,chown,fchown,truncate,ftruncate,link,linkat,symlink,symlinkat,utimensat,utimes"
+
+def c12_no_write_syscalls(ctx):
+    """dry-run modes under strace: no system call that creates, changes or removes a file may succeed (a file written and put back,
+    a temporary file created and deleted again, do not show in a comparison of the directory before and after)"""
+    if not shutil.which("strace"):
+        return
+    probe = subprocess.run(["strace", "-f", "-o", "/dev/null", "-e", "trace=none", "true"], stdout=subprocess.PIPE, stderr=subprocess.PIPE)
+    if probe.returncode != 0:
+        return
+    files = {"a.go": "package a\n\nimport \"fmt\"\n\nfunc f() { fmt.Println(foo(1)) }\n", "sub/b.go": "package b\n\nfunc g() { foo(2) }\n",
+             "sub/un.go": "package b\n\nfunc h() { zzz(3) }\n", "gen.go": "// Code generated by x. DO NOT EDIT.\n\npackage a\n\nfunc k() { foo(4) }\n",
+             "bad.go": "package a\n\nfunc {\n", "p.patch": "# describe\n@@\nvar x expression\n@@\n-foo(x)\n+barbaz(x)\n"}
+    for flags in (["--diff"], ["--print-only"], ["--diff", "-v"], ["--print-only", "--skip-generated"], ["--diff", "--print-only"],
+                  ["--print-only", "--skip-import-processing"]):
+        root = ctx.scratch("nowrite")
+        cl.write_tree(root, files)
+        trace = os.path.join(root, "..", os.path.basename(root) + ".trace")
+        cmd = ["strace", "-f", "-o", trace, "-e", "trace=" + WRITE_SYSCALLS, ctx.gopatch, "-p", "p.patch"] + flags + ["./..."]
+        r = subprocess.run(cmd, cwd=root, stdout=subprocess.PIPE, stderr=subprocess.PIPE, timeout=120)
+        ctx.evaluations += 1
+        ctx.count("dry_runs_under_strace")
+        ctx.nontrivial.add("nowrite:" + " ".join(flags))
+        bad = []
+        try:
+            lines = open(trace).read().splitlines()
+        except OSError:
+            lines = []
+        for l in lines:
+            m = re.match(r"\d+\s+(\w+)\((.*)\)\s+=\s+(-?\d+)", l)
+            if not m or int(m.group(3)) < 0:
+                continue
+            call, args = m.group(1), m.group(2)
+            if call in ("openat", "open"):
+                if not re.search(r"O_WRONLY|O_RDWR|O_CREAT|O_TRUNC|O_APPEND", args) or '"/dev/' in args or '"/proc/' in args:
+                    continue
+            bad.append(l.strip()[:160])
+        try:
+            os.remove(trace)
+        except OSError:
+            pass
+        if bad:
+            ctx.violation(f"gopatch {' '.join(flags)}: a dry-run mode made system calls that create, change or remove files: {bad[:3]}",
+                          {"input": {"files": files, "args": ["-p", "p.patch"] + flags + ["./..."]}, "calls": bad[:10],
+                           "reproduce": "strace -f -e trace=" + WRITE_SYSCALLS + " gopatch -p p.patch " + " ".join(flags) + " ./..."})
+        shutil.rmtree(root, ignore_errors=True)
 
 def matching_cases(ctx, cases, want, rng):
     """cases whose patch rewrites their own source (observed by a solo run)"""
